@@ -12,6 +12,7 @@ from __future__ import annotations
 
 import contextlib
 import copy
+import dataclasses
 import math
 import random
 import struct
@@ -183,7 +184,8 @@ def bind(chk: Check, tier: str, seed: int):
     rng = random.Random(seed)
     dec, enc = NMEA2000Decoder(), NMEA2000Encoder()
     recs, meta = [], []
-    route_encs = {r: NMEA2000Encoder() for r in routes.ROUTES[1:]}
+    shared_enc = NMEA2000Encoder()        # one encoder serves the packet routes in turn
+    route_encs = {r: shared_enc for r in routes.ROUTES[1:]}
     encodable = [d for d in db["defs"] if d["encodable"]]
     if tier == "selftest":
         encodable = encodable[::4]
@@ -216,8 +218,15 @@ def bind(chk: Check, tier: str, seed: int):
                 var = [("name:match", "name", nm)] if nm is not None else []
             else:
                 var = variations(f, rawd["Fields"][i], rng, tier)
-            for cls, attr, v in var:
+            for nv, (cls, attr, v) in enumerate(var):
                 m2 = copy.deepcopy(msg)
+                # every other request is made the way an application edits a message it has already used: the message has been
+                # encoded and queried once, then the field OBJECT is exchanged for a new one carrying the new value
+                swap = nv % 2 == 1
+                if swap:
+                    encode(enc, m2)
+                    m2.get_field_by_id(m2.fields[i].id)
+                    m2.fields[i] = dataclasses.replace(m2.fields[i])
                 if attr == "both":
                     m2.fields[i].value = m2.fields[i].raw_value = None
                 elif attr == "name":
@@ -239,6 +248,15 @@ def bind(chk: Check, tier: str, seed: int):
             req[i] = blank("missing")
             recs.append({"id": d["id"], "ret": ret3, "e": e3, "base": [], "changed": 0, "req": req, "err": err3})
             meta.append((d["id"], f["id"], "removed"))
+            # the field exchanged for one with another id (the list keeps its length) after the message has been used once
+            if i % 3 == 0:
+                m4 = copy.deepcopy(msg)
+                encode(enc, m4)
+                m4.get_field_by_id(m4.fields[i].id)
+                m4.fields[i] = dataclasses.replace(m4.fields[i], id="somethingElse")
+                ret4, e4, err4 = encode(enc, m4)
+                recs.append({"id": d["id"], "ret": ret4, "e": e4, "base": [], "changed": 0, "req": req, "err": err4})
+                meta.append((d["id"], f["id"], "removed/exchanged"))
     chk.gate(base_ok >= (40 if tier == "selftest" else 200), f"only {base_ok} definitions encode their base request")
     n_enc = sum(1 for r in recs if r["ret"] == "enc")
     chk.gate(n_enc > len(recs) // 4, f"only {n_enc} of {len(recs)} requests were encoded")
